@@ -27,6 +27,8 @@ def run(ctx):
                    "range_count_size_increment")
     ctx.rule("R4", "received stays received: no function of the receive journal writes State::Empty (= never received) over a record; "
                    "records leave only by rotation from the front — otherwise decode_pn accepts a duplicate of a packet still inside the window")
+    ctx.rule("R5", "nothing below the window is accepted: every Ok(pn) of RcvdJournal::decode_pn is under `pn >= queue.offset()` — records "
+                   "that have been rotated out must stay refused (TooOld), a vacant slot below the window is not 'never received'")
     ctx.rule("R2", "at-most-once acceptance: decode_pn returns Ok only when the slot is vacant or Empty; on_rcvd_pn is "
                    "fed only PlainPacket::pn() of an authenticated packet")
     # ---------------------------------------------------------------- R1
@@ -192,3 +194,27 @@ def run(ctx):
     ctx.ob("R4", "qrecovery::journal::rcvd|State::Empty is only the default of a fresh slot", not others, "qrecovery/src/journal/rcvd.rs",
            "functions constructing State::Empty: %s (allowed: the derived Default used when the deque is extended over a gap, and the derived Clone)"
            % sorted(set("%s:L%s" % (w[0].short, w[1]) for w in writers)))
+
+    # ---------------------------------------------------------------- R5
+    dp = ctx.anchor("R5", "qrecovery::journal::rcvd::RcvdJournal::decode_pn")
+    if dp:
+        oks = ok_return_sites(dp)
+        ctx.floor("R5", "Ok(..) sites of decode_pn", len(oks), 1)
+        for i in oks:
+            gs = []
+            good = False
+            for (sw, op, x, y) in guard_chain(dp, i):
+                rx_, ry_ = value_roles(dp, x), value_roles(dp, y)
+                gs.append("%s %s %s" % (sorted(rx_), op, sorted(ry_)))
+                off_x = any("IndexDeque" in r and "offset" in r for r in rx_)
+                off_y = any("IndexDeque" in r and "offset" in r for r in ry_)
+                pn_x = any("PacketNumber::decode" in r for r in rx_)
+                pn_y = any("PacketNumber::decode" in r for r in ry_)
+                if pn_x and off_y and op in ("Ge", "Gt"):
+                    good = True
+                if pn_y and off_x and op in ("Le", "Lt"):
+                    good = True
+            ctx.ob("R5", "%s|Ok(pn) only for pn >= queue.offset()" % dp.short, good, dp.where(),
+                   "comparisons deciding the Ok return: %s — IndexDeque::get returns None both above and below the window, so without "
+                   "this test a delayed duplicate (or replay) of a packet whose record has been rotated out is accepted, decrypted and "
+                   "its frames dispatched a second time" % gs)
